@@ -75,10 +75,17 @@ def main():
         if a.all_props:
             props = subprocess.run([os.path.join(VERIF, "bin", "yverif"), "list"], capture_output=True, text=True).stdout.split()
         res["checks"] = {}
+        r = subprocess.run([os.path.join(VERIF, "bin", "yverif"), "checkall", "-repo", mut, "-verif", vdir, "-props", ",".join(props)], env=ENV, capture_output=True, text=True)
+        cur = ""
         for p in props:
-            r = subprocess.run([os.path.join(VERIF, "bin", "yverif"), "check", p, "quick", "-repo", mut, "-verif", vdir], env=ENV, capture_output=True, text=True)
-            viol = [l.strip() for l in r.stdout.splitlines() if l.strip().startswith(("VIOLATED", "UNDECIDED"))]
-            res["checks"][p] = {"rc": r.returncode, "reports": [v[:300] for v in viol[:6]]}
+            res["checks"][p] = {"rc": 0, "reports": []}
+        for l in r.stdout.splitlines():
+            if l.startswith("property="):
+                cur = l.split()[0][9:]
+            elif l.strip().startswith(("VIOLATED", "UNDECIDED", "ERROR")) and cur in res["checks"]:
+                res["checks"][cur]["rc"] = 1
+                if len(res["checks"][cur]["reports"]) < 6:
+                    res["checks"][cur]["reports"].append(l.strip()[:300])
         res["caught_by_own_property"] = res["checks"][a.prop]["rc"] == 1
         res["caught_by"] = [p for p, v in res["checks"].items() if v["rc"] == 1]
         if a.out:
